@@ -21,11 +21,50 @@ INSENSITIVE_METHODS = {"add", "update", "discard", "setdefault", "difference_upd
 ORDER_SINK_FUNCS = {"list", "tuple", "enumerate", "zip", "iter", "next", "str", "repr", "reversed"}
 
 
-def _total_key(key):
-    """Keys under which distinct hashable elements cannot tie: the element itself in some canonical form."""
+def _total_key(key, m=None, depth=0):
+    """Keys under which distinct hashable elements cannot tie: the element itself in some canonical form.  `m`: the
+    module, to resolve key functions defined in it (a function whose every return is a tuple that contains its own
+    parameter is injective; a function returning `sorted(param, key=<total>)` is a canonical listing of a set)."""
+    if depth > 3:
+        return False
     if isinstance(key, ast.Name) and key.id in ("sorted", "str", "repr", "tuple", "list"):
         return True
     if isinstance(key, ast.Attribute) and key.attr in ("hashable_form_of_reference", "hashable_form_of_field_reference"):
+        return True
+    mfuncs = {f.name: f for f in m.top_funcs()} if m is not None else {}
+
+    def injective_fn(name):
+        f = mfuncs.get(name)
+        if f is None or len(f.node.args.args) != 1:
+            return False
+        p = f.node.args.args[0].arg
+        rets = [r for r in walk_no_nested_funcs(f.node) if isinstance(r, ast.Return)]
+        if not rets:
+            return False
+        for r in rets:
+            v = r.value
+            if isinstance(v, ast.Tuple) and any(isinstance(x, ast.Name) and x.id == p for x in v.elts):
+                continue
+            return False
+        return True
+
+    def listing_fn(name):
+        """f(s) = sorted(s, key=<total>) or sorted(s)"""
+        if name == "sorted":
+            return True
+        f = mfuncs.get(name)
+        if f is None or len(f.node.args.args) != 1:
+            return False
+        p = f.node.args.args[0].arg
+        rets = [r for r in walk_no_nested_funcs(f.node) if isinstance(r, ast.Return)]
+        if len(rets) != 1:
+            return False
+        v = rets[0].value
+        if not (isinstance(v, ast.Call) and call_name(v) == "sorted" and v.args and isinstance(v.args[0], ast.Name) and v.args[0].id == p):
+            return False
+        k = next((kw.value for kw in v.keywords if kw.arg == "key"), None)
+        return k is None or _total_key(k, m, depth + 1)
+    if isinstance(key, ast.Name) and injective_fn(key.id):
         return True
     if isinstance(key, ast.Lambda) and len(key.args.args) == 1:
         p = key.args.args[0].arg
@@ -37,6 +76,18 @@ def _total_key(key):
             if isinstance(x, ast.Call) and isinstance(x.func, ast.Name) and x.func.id in ("sorted", "str", "repr", "tuple", "list") \
                     and x.args and isinstance(x.args[0], ast.Name) and x.args[0].id == p:
                 return True
+            # [g(e) for e in listing(p)] with g injective: a canonical list of injective images
+            if isinstance(x, ast.ListComp) and len(x.generators) == 1 and not x.generators[0].ifs:
+                g = x.generators[0]
+                if isinstance(g.target, ast.Name) and isinstance(g.iter, ast.Call) and isinstance(g.iter.func, ast.Name) \
+                        and listing_fn(g.iter.func.id) and len(g.iter.args) == 1 and isinstance(g.iter.args[0], ast.Name) \
+                        and g.iter.args[0].id == p and not g.iter.keywords:
+                    e = x.elt
+                    if isinstance(e, ast.Name) and e.id == g.target.id:
+                        return True
+                    if isinstance(e, ast.Call) and isinstance(e.func, ast.Name) and injective_fn(e.func.id) and len(e.args) == 1 \
+                            and isinstance(e.args[0], ast.Name) and e.args[0].id == g.target.id:
+                        return True
     return False
 
 
@@ -236,7 +287,7 @@ class Analyzer:
                 # sorted(U, key=K) is ordered only if K orders the elements totally; with a key such as `len`, elements
                 # that compare equal keep the set's own (hash) order, because sorted() is stable
                 key = next((k.value for k in e.keywords if k.arg == "key"), None)
-                if key is not None and self.expr_type(m, f, env, e.args[0]) in ("U", "DU") and not _total_key(key):
+                if key is not None and self.expr_type(m, f, env, e.args[0]) in ("U", "DU") and not _total_key(key, m):
                     return "U"
                 return None
             if base == "defaultdict" and e.args and isinstance(e.args[0], ast.Name) and e.args[0].id in ("set", "frozenset"):
@@ -690,3 +741,86 @@ def control(repo):
     kinds = {f.construct.split("|")[2] for f in u.findings}
     return ({"for", "join"} <= kinds and len(i.findings) >= 3
             and any("_seen_files" in f.construct for f in g.findings))
+
+
+# ---- mutable default arguments ----------------------------------------------------------------
+_MUTDEFAULT_CTL = '''
+class Table(object):
+    def __init__(self, rows, marks={}):
+        self.rows = rows
+        self.marks = marks
+
+def harmless(x, seen=[]):
+    return len(seen) + x
+'''
+
+
+def mutdefault(repo, modules=None, rel_suffixes=None):
+    """R-MUTDEFAULT (C09/C17): a default value is evaluated once, when the `def` is executed, so a mutable default
+    (`{}`, `[]`, `set()`, `dict()` ...) is module-lifetime state shared by every call that omits the argument.  It is
+    harmless while the function only reads it; once the parameter is mutated, stored on an object, put into a
+    container, returned or handed to another function, whatever one call (or the object it built) writes is seen by the
+    next: two parsers built in one process share one default-error table, and the second answers with the first one's
+    messages.  Reported: a parameter with a mutable default that is mutated or escapes."""
+    res = RuleResult("R-MUTDEFAULT")
+    mods = list(modules or repo.compile_path_modules())
+    if rel_suffixes:
+        mods = [m for m in repo.modules.values() if m.rel.endswith(tuple(rel_suffixes))]
+        if len(mods) < len(rel_suffixes):
+            raise AnalysisError(f"R-MUTDEFAULT: modules {rel_suffixes} not all found")
+
+    def mutable(d):
+        if isinstance(d, (ast.Dict, ast.List, ast.Set, ast.DictComp, ast.ListComp, ast.SetComp)):
+            return True
+        return isinstance(d, ast.Call) and (call_name(d) or "").split(".")[-1] in (
+            "dict", "list", "set", "defaultdict", "OrderedDict", "deque", "bytearray", "Counter")
+    for m in mods:
+        for f in m.funcs.values():
+            a = f.node.args
+            pos = a.posonlyargs + a.args
+            pairs = list(zip(pos[len(pos) - len(a.defaults):], a.defaults)) + \
+                [(k, d) for k, d in zip(a.kwonlyargs, a.kw_defaults) if d is not None]
+            res.instances += 1
+            for arg, d in pairs:
+                if not mutable(d):
+                    continue
+                p = arg.arg
+                how = None
+                for n in walk_no_nested_funcs(f.node):
+                    if isinstance(n, ast.Call) and isinstance(n.func, ast.Attribute) and isinstance(n.func.value, ast.Name) \
+                            and n.func.value.id == p and n.func.attr in MUTATORS:
+                        how = f"{p}.{n.func.attr}(...)"
+                    elif isinstance(n, (ast.Assign, ast.AugAssign, ast.AnnAssign)):
+                        tgts = n.targets if isinstance(n, ast.Assign) else [n.target]
+                        for t in tgts:
+                            if isinstance(t, ast.Subscript) and isinstance(t.value, ast.Name) and t.value.id == p:
+                                how = f"{p}[...] = ..."
+                            elif isinstance(t, (ast.Attribute, ast.Subscript)) and n.value is not None and isinstance(n.value, ast.Name) and n.value.id == p:
+                                how = f"`{ast.unparse(t)} = {p}` (the object keeps the shared default)"
+                        if isinstance(n, ast.AugAssign) and isinstance(n.target, ast.Name) and n.target.id == p:
+                            how = f"{p} {type(n.op).__name__}= ..."
+                    elif isinstance(n, ast.Return) and isinstance(n.value, ast.Name) and n.value.id == p:
+                        how = f"return {p}"
+                    elif isinstance(n, ast.Call) and any(isinstance(x, ast.Name) and x.id == p for x in n.args + [k.value for k in n.keywords]) \
+                            and (call_name(n) or "").split(".")[-1] not in ("len", "sorted", "list", "dict", "set", "tuple", "frozenset", "bool",
+                                                                             "isinstance", "any", "all", "min", "max", "sum", "str", "repr", "iter", "enumerate", "zip"):
+                        how = f"passed on: `{ast.unparse(n)[:50]}`"
+                    elif isinstance(n, (ast.List, ast.Tuple, ast.Set, ast.Dict)) and isinstance(getattr(n, "ctx", ast.Load()), ast.Load):
+                        vals = list(getattr(n, "elts", [])) + list(getattr(n, "values", []) or [])
+                        if any(isinstance(x, ast.Name) and x.id == p for x in vals):
+                            how = f"stored in `{ast.unparse(n)[:40]}`"
+                    if how:
+                        break
+                if how:
+                    res.add(f"{m.rel}|{f.qualname}|{p}", f"{f.qualname}: parameter `{p}` has the mutable default `{ast.unparse(d)}` and is "
+                            f"{how}: the one default object is shared by every call that omits the argument, so state written "
+                            "through one result shows up in the next (results depend on what ran earlier in the process)",
+                            m.rel, arg.lineno, f.qualname)
+    res.analysed = sorted(m.rel for m in mods)
+    return res
+
+
+def control_mutdefault(repo):
+    r2 = Repo(repo.root, overlay={"compiler/front_end/zz_verif_control.py": _MUTDEFAULT_CTL})
+    g = mutdefault(r2, [r2.mod("compiler/front_end/zz_verif_control.py")])
+    return len(g.findings) == 1 and "marks" in g.findings[0].construct
